@@ -343,7 +343,7 @@ fn direct_bus(rng: &mut Rng, rep: &mut Report) {
 }
 
 pub fn run(ctx: &Ctx) -> Report {
-    let n = ctx.size(1_500_000, 20_000_000) as usize;
+    let n = ctx.size(3_000_000, 20_000_000) as usize;
     let batches = (n + 19) / 20;
     // users run with -v .. -vvvv: the arguments of warn!/trace! are then evaluated. Phase 1 runs
     // with a (dropping) logger at warn level, phase 2 repeats a slice of the work at trace level.
